@@ -22,7 +22,7 @@ CMP_COQ = {"=": "CEq", "<": "CLt", "<=": "CLe", ">": "CGt", ">=": "CGe"}
 
 # which variant of the model describes the code under test: "current" (the pinned tree), "inv" / "slice"
 # (one of the proposed repairs applied), "repaired" (both).  The lead flips the default when fixes land.
-DEFAULT_VARIANT = "current"
+DEFAULT_VARIANT = "repaired"   # fixes f11f464 and 127fbf4 are applied in /repo
 LABEL_FN = {"current": "case_labels", "repaired": "case_labels_repaired", "inv": "case_labels_inv", "slice": "case_labels_slice"}
 
 KNOWN_CLASSES = {
